@@ -241,8 +241,11 @@ type mgVer struct {
 	at  time.Time
 }
 
+// mgView is the newest version of an object the controller was served during the current reconcile (a later read from the
+// lagging cache may be older than an earlier read through the API reader: what counts is the best knowledge it was given).
 type mgView struct {
 	obj client.Object // nil = served as NotFound
+	idx int           // history index of that version
 }
 
 type mgPod struct {
@@ -282,9 +285,10 @@ type mgJob struct {
 	lastObj  *sev1alpha1.PodMigrationJob // last committed version (for the delete event)
 }
 
+// mgPreempt is the state of the (stubbed) preemption for one reservation. The stub has no notion of a nominated node: the
+// open-source reservation object exposes none, so the "different node" clause is only evaluated for scheduled reservations.
 type mgPreempt struct {
 	state string // need | progress | done
-	node  string
 }
 
 type mgSim struct {
@@ -300,6 +304,7 @@ type mgSim struct {
 	hist   map[string][]mgVer
 	cursor map[string]int
 	view   map[string]mgView
+	served map[string][]client.Object // every version served during the current reconcile
 
 	jobs     []*mgJob
 	pods     []*mgPod
@@ -642,13 +647,12 @@ func (s *mgSim) ctlGet(c client.Reader, cached bool, key client.ObjectKey, obj c
 			}
 		}
 		v := h[i].obj
+		s.serve(k, v, i)
 		if v == nil {
-			s.view[k] = mgView{}
 			s.r.Probe("stale-read-notfound:" + kind)
 			return apierrors.NewNotFound(mgGR(kind), key.Name)
 		}
 		mgCopyInto(obj, v)
-		s.view[k] = mgView{obj: v}
 		return nil
 	}
 	if len(h) > 0 {
@@ -658,19 +662,18 @@ func (s *mgSim) ctlGet(c client.Reader, cached bool, key client.ObjectKey, obj c
 			s.cursor[k] = len(h) - 1
 		}
 		v := h[len(h)-1].obj
+		s.serve(k, v, len(h)-1)
 		if v == nil {
-			s.view[k] = mgView{}
 			return apierrors.NewNotFound(mgGR(kind), key.Name)
 		}
 		mgCopyInto(obj, v)
-		s.view[k] = mgView{obj: v}
 		return nil
 	}
 	err := c.Get(s.ctx, key, obj, opts...)
 	if err == nil {
-		s.view[k] = mgView{obj: obj.DeepCopyObject().(client.Object)}
+		s.serve(k, obj.DeepCopyObject().(client.Object), 0)
 	} else if apierrors.IsNotFound(err) {
-		s.view[k] = mgView{}
+		s.serve(k, nil, 0)
 	}
 	return err
 }
@@ -718,6 +721,11 @@ func (s *mgSim) write(verb, kind, name string, obj client.Object, offerConflict 
 			s.r.Probe("natural-conflict:" + site)
 		}
 		s.record(kind, name)
+		if err == nil { // the controller knows what it wrote
+			if h := s.hist[kind+"/"+name]; len(h) > 0 {
+				s.serve(kind+"/"+name, h[len(h)-1].obj, len(h)-1)
+			}
+		}
 	}
 	s.afterWrite(verb, kind, name, f, err)
 	return err
@@ -820,6 +828,19 @@ func (s *mgSim) funcs() interceptor.Funcs {
 	}
 }
 
+func (s *mgSim) serve(k string, obj client.Object, idx int) {
+	s.served[k] = append(s.served[k], obj)
+	if v, ok := s.view[k]; ok && v.idx > idx {
+		return
+	}
+	s.view[k] = mgView{obj: obj, idx: idx}
+}
+
+func (s *mgSim) resetView() {
+	s.view = map[string]mgView{}
+	s.served = map[string][]client.Object{}
+}
+
 // viewOf returns the version of an object the controller was served in the current reconcile, else the store's.
 func (s *mgSim) viewOf(kind, name string) (client.Object, bool) {
 	if v, ok := s.view[kind+"/"+name]; ok {
@@ -887,7 +908,6 @@ func (s *mgSim) resvClass(rv *sev1alpha1.Reservation, pod *corev1.Pod, podUID ty
 			}
 			return "pending"
 		}
-		node = pre.node
 	}
 	if pod != nil && node != "" && node == pod.Spec.NodeName {
 		return "same-node"
@@ -930,10 +950,6 @@ func (e mgEvictor) Evict(ctx context.Context, job *sev1alpha1.PodMigrationJob, p
 		mode = s.cfg.DefaultMode
 	}
 	stPod := s.getPod(pod.Name)
-	seenPod := stPod
-	if v, ok := s.viewOf("pod", pod.Name); ok {
-		seenPod, _ = v.(*corev1.Pod)
-	}
 	if mode == mgRF {
 		r.Probe("evict-call:reservation-first")
 		var ref *corev1.ObjectReference
@@ -943,19 +959,47 @@ func (e mgEvictor) Evict(ctx context.Context, job *sev1alpha1.PodMigrationJob, p
 		if ref == nil {
 			r.Fail("evict-gate", "no-reservation", "job %s (reservation-first) evicts pod %s without having a reservation", job.Name, pod.Name)
 		}
+		// The verdict is taken on what the controller was served in this reconcile (nobody can observe cache lag): the call is
+		// accepted if the gate holds for some served version of the reservation and of the pod, judged on the store's current
+		// objects when it read none. The store-state verdict is counted separately.
 		stR := s.getResv(ref.Name)
-		seenR := stR
-		if v, ok := s.viewOf("resv", ref.Name); ok {
-			seenR, _ = v.(*sev1alpha1.Reservation)
-		}
 		target := pod.UID
-		cls := s.resvClass(seenR, seenPod, target)
+		var rvs []*sev1alpha1.Reservation
+		for _, v := range s.served["resv/"+ref.Name] {
+			x, _ := v.(*sev1alpha1.Reservation)
+			rvs = append(rvs, x)
+		}
+		if len(rvs) == 0 {
+			rvs = append(rvs, stR)
+		}
+		var pods []*corev1.Pod
+		for _, v := range s.served["pod/"+pod.Name] {
+			x, _ := v.(*corev1.Pod)
+			pods = append(pods, x)
+		}
+		if len(pods) == 0 {
+			pods = append(pods, stPod)
+		}
+		cls := ""
+		for i := len(rvs) - 1; i >= 0; i-- {
+			for k := len(pods) - 1; k >= 0; k-- {
+				c := s.resvClass(rvs[i], pods[k], target)
+				if c == "" {
+					cls = ""
+					i = -1
+					break
+				}
+				if cls == "" {
+					cls = c // the verdict on the newest served pair names the violation
+				}
+			}
+		}
 		stCls := s.resvClass(stR, stPod, target)
 		r.Event("evict job %d pod %s gate=%q store=%q", j.idx, pod.Name, cls, stCls)
-		r.Sample("  Evict(job %d, pod %s on %q) received: reservation %s", j.idx, pod.Name, pod.Spec.NodeName, mgResvString(seenR))
+		r.Sample("  Evict(job %d, pod %s on %q) received: reservation %s", j.idx, pod.Name, pod.Spec.NodeName, mgResvString(rvs[len(rvs)-1]))
 		if cls != "" {
 			r.Fail("evict-gate", cls, "job %s (reservation-first) evicts pod %s (node %q) while its reservation %s is %s: %s",
-				job.Name, pod.Name, pod.Spec.NodeName, ref.Name, cls, mgResvString(seenR))
+				job.Name, pod.Name, pod.Spec.NodeName, ref.Name, cls, mgResvString(rvs[len(rvs)-1]))
 		}
 		if stCls != "" {
 			// the store moved on after the controller's (lagging) read: unavoidable, counted
@@ -1094,7 +1138,7 @@ func (s *mgSim) newReconciler() *Reconciler {
 }
 
 func (mgEngine) Execute(r *sim.Run) {
-	s := &mgSim{r: r, ctx: context.Background(), hist: map[string][]mgVer{}, cursor: map[string]int{}, view: map[string]mgView{}, preempt: map[string]*mgPreempt{}}
+	s := &mgSim{r: r, ctx: context.Background(), hist: map[string][]mgVer{}, cursor: map[string]int{}, view: map[string]mgView{}, served: map[string][]client.Object{}, preempt: map[string]*mgPreempt{}}
 	r.Plan.GetCfg(&s.cfg)
 	var ops []mgOp
 	r.Plan.GetOps(&ops)
@@ -1316,13 +1360,14 @@ func (s *mgSim) envProgress(j *mgJob, v int) bool {
 				return false // nobody preempts before the controller asks for it
 			case "progress":
 				pre.state = "done"
-				r.Event("env job %d preemption completed for %s on %s", j.idx, rv.Name, pre.node)
+				r.Event("env job %d preemption completed for %s", j.idx, rv.Name)
 				r.Probe("env:preemption-completed")
 				return true
 			default:
-				s.must(resvutil.SetReservationAvailable(rv, pre.node), "available")
+				n := s.otherNode(p, v)
+				s.must(resvutil.SetReservationAvailable(rv, n), "available")
 				s.setResvStatus(rv, "schedule after preemption")
-				r.Event("env job %d reservation scheduled after preemption on %s", j.idx, pre.node)
+				r.Event("env job %d reservation scheduled after preemption on %s", j.idx, n)
 				return true
 			}
 		}
@@ -1340,7 +1385,7 @@ func (s *mgSim) envProgress(j *mgJob, v int) bool {
 		case d == 6 && s.cfg.Preempt:
 			resvutil.SetReservationUnschedulable(rv, "preemption is needed")
 			s.setResvStatus(rv, "unschedulable")
-			s.preempt[rv.Name] = &mgPreempt{state: "need", node: s.otherNode(p, v/8)}
+			s.preempt[rv.Name] = &mgPreempt{state: "need"}
 			r.Event("env job %d reservation needs preemption", j.idx)
 			r.Probe("env:needs-preemption")
 		default:
@@ -1439,7 +1484,7 @@ func (s *mgSim) deliverDeletes() {
 		}
 		// what the DeleteFunc predicate registered in New() does with the final state of the object
 		s.cur = j
-		s.view = map[string]mgView{}
+		s.resetView()
 		s.rec.assumedCache.delete(j.lastObj)
 		err := s.rec.deleteReservation(s.ctx, j.lastObj.DeepCopy())
 		s.cur = nil
@@ -1454,7 +1499,7 @@ func (s *mgSim) reconcile(j *mgJob) {
 	if j.hasDue && !j.due.After(now) {
 		j.hasDue = false
 	}
-	s.view = map[string]mgView{}
+	s.resetView()
 	s.cur, s.lastEv, s.staleRun = j, nil, false
 	if !j.deleted && j.lastObj != nil && j.lastObj.Spec.TTL != nil && j.lastObj.Spec.TTL.Duration > 0 &&
 		now.Sub(j.lastObj.CreationTimestamp.Time) >= j.lastObj.Spec.TTL.Duration &&
@@ -1669,7 +1714,7 @@ func (s *mgSim) apply(op mgOp) {
 		r.Probe("restart")
 		r.OpDone()
 	case "scavenge":
-		s.view = map[string]mgView{}
+		s.resetView()
 		s.rec.doScavenge()
 		r.Event("scavenge")
 		r.Probe("scavenge")
